@@ -169,7 +169,9 @@ theorem C14_marshal (K : Closures) (interp : Nat → Val → Option Nat) (s : St
 `Stack.Unmarshal()` without a closure of its own walks its elements (`unmarshalElemsK`): a nested Stack, in any form, is
 walked with the private default again - its Unmarshaler is **not** consulted; a nested Condition, in any form, goes through
 the public `Condition.Unmarshal()` - its Unmarshaler **is** consulted; a Stack held by a Condition goes through the public
-`Stack.Unmarshal()` - its Unmarshaler **is** consulted. An error returned by a consulted closure (at any depth) ends the
+`Stack.Unmarshal()` - its Unmarshaler **is** consulted; a Condition held by a Condition (any form, to any depth) goes through
+the public `Condition.Unmarshal()` - its Unmarshaler **is** consulted (repair F43: it used to be handed through as the live
+value, so neither its closure nor anything below it was looked at). An error returned by a consulted closure (at any depth) ends the
 walk: the entries collected before the failing element and that error are the result. -/
 
 /-- bridge: no Unmarshaler anywhere - the closure-free model, no error -/
@@ -237,6 +239,50 @@ theorem C14_unmarshal_nested_held_stack_elem (K : Closures) (f f' : Form) (c sc 
       (.anys [strV conditionLabel, strV kw, .opv op, .anys (K.unmarshal p).1], (K.unmarshal p).2) := by
   simp only [unmarshalElemK, hc, unmarshalExprK, hp]
 
+/-- (c') a Condition held as a Condition's expression, in any form, with an Unmarshaler: **its Unmarshaler is consulted** - the
+holder's row carries the closure's list as its fourth entry, and the holder's `Unmarshal()` returns the closure's error with
+the row (repair F43) -/
+theorem C14_unmarshal_nested_held_cond (K : Closures) (c : Cnd) (f : Form) (ic : Cfg) (kw : Text) (op : Op) (ex : Val) (p : Nat)
+    (hc : c.cfg.umf = none) (hex : c.ex = .cnd f ic kw op ex) (hp : ic.umf = some p) :
+    c.UnmarshalP K = ([strV conditionLabel, strV c.kw, .opv c.op, .anys (K.unmarshal p).1], (K.unmarshal p).2) := by
+  unfold Cnd.UnmarshalP; rw [hc, hex]; simp only [unmarshalExprK, hp]
+
+/-- … without one, the held Condition contributes its own four-entry row, whose fourth entry and error are those of *its*
+expression under the same rules (a Stack: its Unmarshaler or its walk; a Condition: this rule again; anything else: itself) -/
+theorem C14_unmarshal_nested_held_cond_default (K : Closures) (c : Cnd) (f : Form) (ic : Cfg) (kw : Text) (op : Op) (ex : Val)
+    (hc : c.cfg.umf = none) (hex : c.ex = .cnd f ic kw op ex) (hp : ic.umf = none) :
+    c.UnmarshalP K = ([strV conditionLabel, strV c.kw, .opv c.op,
+        .anys [strV conditionLabel, strV kw, .opv op, (unmarshalExprK K ex).1]], (unmarshalExprK K ex).2) := by
+  unfold Cnd.UnmarshalP; rw [hc, hex]; simp only [unmarshalExprK, hp]
+
+/-- … in other words: what a held Condition contributes to its holder is exactly `Condition.Unmarshal()` of the held Condition
+as a receiver, at every depth -/
+theorem C14_unmarshal_nested_held_cond_public (K : Closures) (f : Form) (ic : Cfg) (kw : Text) (op : Op) (ex : Val) :
+    unmarshalExprK K (.cnd f ic kw op ex) =
+      (.anys ((⟨ic, kw, op, ex⟩ : Cnd).UnmarshalP K).1, ((⟨ic, kw, op, ex⟩ : Cnd).UnmarshalP K).2) := by
+  unfold Cnd.UnmarshalP
+  cases hu : ic.umf <;> simp only [unmarshalExprK, hu]
+
+/-- … and it is what the same Condition contributes as an element of a Stack -/
+theorem C14_unmarshal_nested_held_cond_as_elem (K : Closures) (f : Form) (ic : Cfg) (kw : Text) (op : Op) (ex : Val) :
+    unmarshalExprK K (.cnd f ic kw op ex) = unmarshalElemK K (.cnd f ic kw op ex) :=
+  unmarshalExprK_cnd K f ic kw op ex
+
+/-- … also when the holder is itself an element of a Stack being unmarshalled -/
+theorem C14_unmarshal_nested_held_cond_elem (K : Closures) (f f' : Form) (c ic : Cfg) (kw kw' : Text) (op op' : Op) (ex : Val)
+    (p : Nat) (hc : c.umf = none) (hp : ic.umf = some p) :
+    unmarshalElemK K (.cnd f c kw op (.cnd f' ic kw' op' ex)) =
+      (.anys [strV conditionLabel, strV kw, .opv op, .anys (K.unmarshal p).1], (K.unmarshal p).2) := by
+  simp only [unmarshalElemK, hc, unmarshalExprK, hp]
+
+/-- … and two levels down: holder, held Condition without a closure, *its* held Condition with one -/
+theorem C14_unmarshal_nested_held_cond_deep (K : Closures) (f f' f'' : Form) (c c' ic : Cfg) (kw kw' kw'' : Text) (op op' op'' : Op)
+    (ex : Val) (p : Nat) (hc : c.umf = none) (hc' : c'.umf = none) (hp : ic.umf = some p) :
+    unmarshalElemK K (.cnd f c kw op (.cnd f' c' kw' op' (.cnd f'' ic kw'' op'' ex))) =
+      (.anys [strV conditionLabel, strV kw, .opv op,
+         .anys [strV conditionLabel, strV kw', .opv op', .anys (K.unmarshal p).1]], (K.unmarshal p).2) := by
+  simp only [unmarshalElemK, hc, unmarshalExprK, hc', hp]
+
 /-- (d) **error propagation**: when the element at position `pre.length` reports an error (its own closure's, or one from
 deeper inside it), the parent's result is the label and the entries of `pre` - it ends before that element's entry - and the
 error is that error; nothing behind it is visited -/
@@ -262,6 +308,19 @@ theorem C14_unmarshal_nested_error_held (K : Closures) (f f' : Form) (c sc : Cfg
     (unmarshalElemK K (.cnd f c kw op (.stk f' sc xs))).2 = some e := by
   rw [C14_unmarshal_nested_held_stack_elem K f f' c sc kw op xs p hc hp]; exact he
 
+/-- … so is the error of the Unmarshaler of a Condition held by a nested Condition (repair F43) … -/
+theorem C14_unmarshal_nested_error_held_cond (K : Closures) (f f' : Form) (c ic : Cfg) (kw kw' : Text) (op op' : Op) (ex : Val) (p e : Nat)
+    (hc : c.umf = none) (hp : ic.umf = some p) (he : (K.unmarshal p).2 = some e) :
+    (unmarshalElemK K (.cnd f c kw op (.cnd f' ic kw' op' ex))).2 = some e := by
+  rw [C14_unmarshal_nested_held_cond_elem K f f' c ic kw kw' op op' ex p hc hp]; exact he
+
+/-- … an error raised anywhere below a chain of closure-free Conditions is the error of the outermost one (it travels up
+through every level of Condition nesting) … -/
+theorem C14_unmarshal_nested_error_up_cond (K : Closures) (f : Form) (c : Cfg) (kw : Text) (op : Op) (ex : Val) (hc : c.umf = none) :
+    (unmarshalElemK K (.cnd f c kw op ex)).2 = (unmarshalExprK K ex).2 ∧
+    (unmarshalExprK K (.cnd f c kw op ex)).2 = (unmarshalExprK K ex).2 := by
+  simp only [unmarshalElemK, unmarshalExprK, hc, and_self]
+
 /-- … and an error raised inside a nested Stack is the nested Stack's error (it travels up through every level of Stack nesting) -/
 theorem C14_unmarshal_nested_error_up (K : Closures) (f : Form) (c : Cfg) (ys : List Val) :
     (unmarshalElemK K (.stk f c ys)).2 = (unmarshalElemsK K ys).2 := by
@@ -277,6 +336,19 @@ example :
     (t.UnmarshalP K).2 = some 7 ∧ (t.UnmarshalP K).1.length = 3 ∧
     (match (t.UnmarshalP K).1 with
      | [_, .anys [_, .leaf (.str ['a'])], .anys [.leaf (.int 2)]] => true
+     | _ => false) = true := by decide
+
+/-- non-vacuity (repair F43): a Condition (pointer form, closure 2) held by a Condition held by the receiver's first element is
+consulted; a second chain - Condition, Condition, Condition-held Stack with the failing closure 3 - ends the walk before its entry -/
+example :
+    let K : Closures := { unmarshal := fun p => ([.leaf (.int p)], if p == 3 then some 7 else none) }
+    let t : Stk := ⟨{ kind := 1 }, [
+        .cnd .native { kind := 5 } ['a'] (.cmp 1) (.cnd .alias { kind := 5 } ['b'] (.cmp 2) (.cnd .ptr { kind := 5, umf := some 2 } ['c'] (.cmp 3) (.leaf (.int 1)))),
+        .cnd .aliasS { kind := 5 } ['d'] (.cmp 1) (.cnd .native { kind := 5 } ['e'] (.cmp 2) (.stk .alias { kind := 4, umf := some 3 } [.leaf (.int 1)])),
+        .leaf (.str ['z'])]⟩
+    (t.UnmarshalP K).2 = some 7 ∧ (t.UnmarshalP K).1.length = 2 ∧
+    (match (t.UnmarshalP K).1 with
+     | [_, .anys [_, .leaf (.str ['a']), _, .anys [_, .leaf (.str ['b']), _, .anys [.leaf (.int 2)]]]] => true
      | _ => false) = true := by decide
 
 /-- **Equality.** With an equality closure installed, `IsEqual` against a Stack (any form) returns the closure's result -/
